@@ -12,7 +12,7 @@ CHECKS = {
         text='Seeded streams from simulated Wayland endpoints (with program chatter, both --supress settings, file / pipe / run mode) are '
              'fed to the real main.main through a simulated raw stream under the real BufferedReader/TextIOWrapper; every truncation '
              'point of small streams (thorough) or line boundaries plus 64 random interior offsets (quick) is enumerated as an EOF fault, '
-             'and raw reads as KeyboardInterrupt faults. Conservation, order, passthrough text, prefix-on-cut, closed-notices and the '
+             'and raw reads as KeyboardInterrupt faults. Conservation (target, message name, direction and the connection letter of every message line), order, passthrough text, prefix-on-cut, closed-notices and the '
              'pace of output relative to raw reads are judged against ground truth. Chatter includes program output with its own colour sequences and cut-off fronts of message lines (open string argument). Sampled streams, enumerated crash points.',
         note='Trusted: libwayland printer model, chatter templates that cannot match the message grammar, Python text I/O; stdout block buffering below stream.Std is outside the seam.',
         technique=TECH + '; truncation/interrupt points enumerated per sampled stream'),
@@ -38,7 +38,7 @@ CHECKS = {
     'C06': dict(level='exploration', ref='4 C06',
         text='Component rig (real Parser + ConnectionManager + Controller): a multi-connection history streams in while a scripted user changes the filter and the selected connection '
              'between two reads at scheduler-chosen points; every arriving message is stamped with the reference (filter, selection) in force and the shown message lines are compared in both directions '
-             '(nothing matching hidden, nothing else shown, once, in order); Connection.messages() and a closing `connection all` + `list *` must contain every message. Every sixth run adds messages on objects the tool cannot resolve (under selection changes, filter *); a quarter of the streams end without a final newline; app ids that collide with connection names are aimed at `connection <x>`. A quarter of the runs (lanes 12-15) drive the same session model through the GDB world: the real plugin.py command and message paths on the fake gdb, commands typed at user interrupts.',
+             '(nothing matching hidden, nothing else shown, once, in order); Connection.messages() and a closing `connection all` + `list *` must contain every message. Every sixth run adds messages on objects the tool cannot resolve (under selection changes, filter *); a quarter of the streams end without a final newline; in the GDB lanes a fifth of the sessions carry one output-side fault (Ctrl-C inside the write of the k-th live message line: that line may be lost on the screen, the message stays recorded, everything afterwards is judged as before); app ids that collide with connection names are aimed at `connection <x>`. A quarter of the runs (lanes 12-15) drive the same session model through the GDB world: the real plugin.py command and message paths on the fake gdb, commands typed at user interrupts.',
         note='Trusted: three-valued reference matcher over the documented subset (don\'t-cares counted); simulated endpoints and printer. Commands are injected between two readline() calls of the real parse loop.',
         technique=TECH + '; user actor scheduled between reads'),
     'C11': dict(level='exploration', ref='4 C11',
@@ -90,12 +90,12 @@ CHECKS = {
     'C10': dict(level='exploration', ref='4 C10',
         text='GDB world: messages on 1-3 connections from 1-3 inferior threads interleaved by the seeded scheduler with user commands typed whenever the inferior is halted (breakpoint changes through every registered spelling, connection selection, list, help, garbage, wlresume, wlquit, plain gdb continue); '
              'gdb.execute("continue") re-enters the inferior loop synchronously as in real gdb. For every message the value returned by stop() and the Stopped-at notice are compared with the reference breakpoint state and selection; for every command, continue is executed iff it was resume, quit iff quit, otherwise neither. '
-             'A second workload drives TerminalUI.run_until_stopped with scripted input and counts prompts; on one lane (no fake gdb module) the prompt is reached through main.main in file mode, also with open() failing with FileNotFoundError (I/O fault). Sessions also contain wl_connection_destroy events (never a halt there; selection survives the close of the selected connection), app-id/name collisions and state-neutral garbage commands.',
+             'A second workload drives TerminalUI.run_until_stopped with scripted input and counts prompts; One session in seven carries an output-side fault: Ctrl-C inside the k-th gdb.write of a command that changes nothing (list, help, junk) - the command is abandoned and the program must stay halted. On one lane (no fake gdb module) the prompt is reached through main.main in file mode, also with open() failing with FileNotFoundError (I/O fault). Sessions also contain wl_connection_destroy events (never a halt there; selection survives the close of the selected connection), app-id/name collisions and state-neutral garbage commands.',
         note='Trusted: fake gdb (re-entrant continue), reference matcher (don\'t-cares counted). A command typed while the program runs is modelled as a user interrupt followed by the command.',
         technique=TECH + '; in-process fake gdb, user actor scheduled at halts'),
     'C15': dict(level='exploration', ref='4 C15',
         text='GDB world event sequences: messages on any of several wl_connection addresses from any thread, wl_connection_destroy of open, already closed and never-seen connections, address re-use through a LIFO heap. '
-             'Notices (New on the first message with the role from get_registry direction, Closed exactly when an open one is destroyed, silence for other destroys), fresh names and object tables after re-use (per-connection C02/C03 oracles), connections() bookkeeping, no exception out of any stop(). One output-side fault is injected where the unchanged tree is robust (Ctrl-C inside gdb.write of a Closed notice). Thorough tier: 16 sessions are replayed as C programs under the real gdb 13 with the real plugin (stub fidelity).',
+             'Notices (New on the first message with the role from get_registry direction, Closed exactly when an open one is destroyed, silence for other destroys), fresh names and object tables after re-use (per-connection C02/C03 oracles), connections() bookkeeping, no exception out of any stop(). One output-side fault is injected where the unchanged tree is robust (Ctrl-C inside gdb.write of a Closed notice); input-side faults (the k-th gdb.selected_thread() call raising, Ctrl-C inside the j-th read of the inferior\'s memory during one hit) lose one message and are followed by a reduced oracle. Thorough tier: 16 sessions are replayed as C programs under the real gdb 13 with the real plugin (stub fidelity).',
         note='Trusted: fake gdb and simulated inferior; an exception raised by stop() halts the inferior as in real gdb.',
         technique=TECH + '; in-process fake gdb and simulated inferior'),
 }
